@@ -292,7 +292,7 @@ static int ratom_match(struct ratom *ra, struct rstate *rs)
 		char *r = rs->s;
 		while (*s && *s == *r)
 			s++, r++;
-		if (*s)
+		if (*s || (*r & 0xc0) == 0x80)	/* mismatch or inside a character */
 			return 1;
 		rs->s = r;
 		return 0;
